@@ -212,7 +212,7 @@ def run_job(job):
         run((None, None), (w.spk, None, None), (w.spk, None, None), "collision: client identity := server key")
         # ---- credential identifier pairs
         creds = [(b"", b"\x00"), (b"\x00", b""), (b"cred", b"cre"), (b"cre", b"cred"), (b"cred", b"credOprfKey"), (b"credOprfKey", b"cred"),
-                 (b"", b"OprfKey"), (b"a" * 64, b"a" * 63 + b"b"), (b"a" * 63 + b"b", b"a" * 64), (b"c" * 1024, b"c" * 1023), (b"c" * 1023 + b"d", b"c" * 1024),
+                 (b"", b"OprfKey"), (b"alice", b"alice\n"), (b" alice", b"alice"), (b"alice ", b"alice\t"), (b"\x20\x00\x00\x01", b"\x0a\x00\x00\x01"), (b" ", b""), (b"a" * 64, b"a" * 63 + b"b"), (b"a" * 63 + b"b", b"a" * 64), (b"c" * 1024, b"c" * 1023), (b"c" * 1023 + b"d", b"c" * 1024),
                  (b"k" * 100000, b"k" * 99999 + b"l"), (b"cred", b"CRED"), (b"x" * 25 + b"A", b"x" * 25 + b"B"), (b"x" * 41 + b"A", b"x" * 41 + b"B"),
                  (b"x" * 57 + b"A", b"x" * 57 + b"B"), (b"y" * 128 + b"A", b"y" * 128 + b"B"), (b"z" * 255 + b"A", b"z" * 255 + b"B"),
                  (b"z" * 65535 + b"A", b"z" * 65535 + b"B")]
